@@ -197,10 +197,26 @@ func checkC16(w *World) {
 			w.check(P, "R16.2", "delimiter "+d, ifi.Pos(), ok, fmt.Sprintf("pushes %d, pops %d, end flag %s, nil node: %v (required: no push, one pop, true, nil)", pushes, pops, endFlag, isNilConst(ret.Results[0])))
 		}
 	}
+	// the delimiter arms are taken only for json.Delim tokens (a string value "{" is not a delimiter)
+	for _, d := range []string{"{", "}", "[", "]"} {
+		ifi := arms[d]
+		if ifi == nil {
+			continue
+		}
+		delimGuard := false
+		for _, a := range guardAtoms(ifi.Block()) {
+			if ex, ok := a.V.(*ssa.Extract); ok && ex.Index == 1 && a.Pol {
+				if ta, ok := ex.Tuple.(*ssa.TypeAssert); ok && ta.AssertedType.String() == "encoding/json.Delim" {
+					delimGuard = true
+				}
+			}
+		}
+		w.check(P, "R16.2", "delimiter "+d+" is recognised by token type", ifi.Pos(), delimGuard, fmt.Sprintf("the comparison with %q happens only for tokens of type json.Delim: %v (otherwise the JSON string %q is taken for punctuation)", d, delimGuard, d))
+	}
 	so, okO := pushedStates["{"]
 	sa, okA := pushedStates["["]
 	w.check(P, "R16.2", "object and array push distinct states", pull.Pos(), okO && okA && so != sa, fmt.Sprintf("state pushed for '{': %d, for '[': %d", so, sa))
-	w.floor(P, "R16.2", 5)
+	w.floor(P, "R16.2", 9)
 
 	// R16.3
 	var render *ssa.Function
@@ -302,7 +318,17 @@ func checkC16(w *World) {
 		})
 	}
 	w.check(P, "R16.3", "node kinds produced", pull.Pos(), kinds["CharData"] >= 2 && kinds["Element"] >= 3 && kinds["Attribute"] == 0 && spaceConst, fmt.Sprintf("returns %v; element namespace is the constant \"\": %v", ks, spaceConst))
-	w.floor(P, "R16.3", 4)
+	// numbers must arrive as float64 (UseNumber would hand the literal spelling through the json.Number arm)
+	useNumber := false
+	w.forAllFuncs("parser", func(fn *ssa.Function) {
+		allInstrs(fn, func(in ssa.Instruction) {
+			if c, ok := in.(*ssa.Call); ok && staticCallee(c) != nil && funcFullName(staticCallee(c)) == "(*encoding/json.Decoder).UseNumber" {
+				useNumber = true
+			}
+		})
+	})
+	w.check(P, "R16.3", "numbers are decoded to float64", pull.Pos(), !useNumber, fmt.Sprintf("Decoder.UseNumber is called: %v (then 1.0, 1e2, 1.50 keep their source spelling instead of the shortest numeral that reads back to the same double)", useNumber))
+	w.floor(P, "R16.3", 5)
 }
 
 func checkC17(w *World) {
@@ -547,8 +573,38 @@ func checkC17(w *World) {
 			}
 		}
 	})
-	w.check(P, "R17.3", "synthetic end only for childless elements", pull.Pos(), synth, fmt.Sprintf("the self-closing flag is set under FirstChild == nil: %v", synth))
+	// ... and under nothing else that depends on the DOM (iff)
+	extra := ""
+	allInstrs(pull, func(in ssa.Instruction) {
+		st, ok := in.(*ssa.Store)
+		if !ok {
+			return
+		}
+		fa, ok := st.Addr.(*ssa.FieldAddr)
+		if !ok || !strings.Contains(strings.ToLower(fieldName(fa)), "selfclosing") {
+			return
+		}
+		c, ok := st.Val.(*ssa.Const)
+		if !ok || c.Value == nil || c.Value.String() != "true" {
+			return
+		}
+		for _, a := range guardAtoms(st.Block()) {
+			backSlice(a.V, func(v ssa.Value) bool {
+				if ld, ok := v.(*ssa.UnOp); ok {
+					if fa2, ok := ld.X.(*ssa.FieldAddr); ok {
+						switch fieldName(fa2) {
+						case "NextSibling", "PrevSibling", "Parent", "LastChild":
+							extra = fieldName(fa2)
+						}
+					}
+				}
+				return true
+			})
+		}
+	})
+	w.check(P, "R17.3", "synthetic end only for childless elements", pull.Pos(), synth && extra == "", fmt.Sprintf("the self-closing flag is set under FirstChild == nil: %v; additionally conditioned on %s (then a childless element in that position never gets its end event and everything after it nests one level too deep)", synth, orNone(extra)))
 	eofGuard := false
+	eofReturns, eofGuarded := 0, 0
 	allInstrs(pull, func(in ssa.Instruction) {
 		ret, ok := in.(*ssa.Return)
 		if !ok || len(ret.Results) != 3 {
@@ -561,17 +617,24 @@ func checkC17(w *World) {
 		if g, ok := ld.X.(*ssa.Global); !ok || g.Name() != "EOF" {
 			return
 		}
+		eofReturns++
 		for _, a := range guardAtoms(ret.Block()) {
 			if bo, ok := a.V.(*ssa.BinOp); ok && isNilConst(bo.Y) && bo.Op == token.EQL && a.Pol {
 				if l2, ok := bo.X.(*ssa.UnOp); ok {
 					if fa2, ok := l2.X.(*ssa.FieldAddr); ok && fieldName(fa2) == "Parent" {
-						eofGuard = true
+						if _, direct := fa2.X.(*ssa.UnOp); direct {
+							// x.node.Parent == nil (the current node itself, not its parent's parent)
+							if inner, ok := fa2.X.(*ssa.UnOp).X.(*ssa.FieldAddr); ok && fieldName(inner) == "node" {
+								eofGuard = true
+								eofGuarded++
+							}
+						}
 					}
 				}
 			}
 		}
 	})
-	w.check(P, "R17.3", "io.EOF only at a node without parent", pull.Pos(), eofGuard, fmt.Sprintf("%v", eofGuard))
+	w.check(P, "R17.3", "io.EOF only at a node without parent", pull.Pos(), eofGuard && eofReturns == eofGuarded, fmt.Sprintf("%d returns of io.EOF, %d of them under `current node has no parent` (an earlier EOF drops whatever follows, e.g. comments after </html>)", eofReturns, eofGuarded))
 	w.floor(P, "R17.3", 2)
 }
 
